@@ -157,6 +157,20 @@ def handleOrder (j : Json) : Except String Json := do
     pure (Net.SpKey.mk c n)
   pure <| Json.arr ((Net.speciesOrder items).map fun k => Json.str k.name).toArray
 
+def handleWindow (j : Json) : Except String Json := do
+  let tmin ← getFloat (← j.getObjVal? "tmin")
+  let tmax ← getFloat (← j.getObjVal? "tmax")
+  let ts ← (← (← j.getObjVal? "T").getArr?).toList.mapM getFloat
+  let g := Window.guardOf (0.0 : Float) tmin tmax
+  pure <| Json.mkObj [("lo", g.lo.isSome), ("hi", g.hi.isSome), ("guarded", g.isGuarded),
+    ("holds", Json.arr (ts.map fun t => Json.bool (g.holds t)).toArray)]
+
+def handleKrome (j : Json) : Except String Json := do
+  let v ← (← j.getObjVal? "value").getStr?
+  pure <| match Window.kromeBound v with
+    | some s => Json.str s
+    | none => Json.null
+
 def handle (line : String) : String :=
   match Json.parse line with
   | .error e => (Json.mkObj [("error", s!"json: {e}")]).compress
@@ -168,6 +182,8 @@ def handle (line : String) : String :=
       | "override" => handleOverride j
       | "solve" => handleSolve j
       | "net" => handleNet j
+      | "window" => handleWindow j
+      | "kromebound" => handleKrome j
       | "dup" => handleDup j
       | "order" => handleOrder j
       | "odeint" => handleOdeint j
